@@ -485,7 +485,7 @@ func execNameTestQNameLocalOnly(context *exprContext, expr *grammar.Grammar) err
 			}
 		}
 
-		if ns, ok := child.Node().(node.Namespace); ok {
+		if ns, ok := child.Node().(node.Namespace); ok && context.principal == principalNamespace {
 			namespaceValue := context.NamespaceDecls[queryName]
 
 			if ns.NamespaceValue() == namespaceValue {
